@@ -99,6 +99,9 @@ pub fn check_pos(ctx: &mut Ctx, mp: &MPos, b: &Board) {
 
     // 4. on a sample of positions: validate on EVERY well-formed tuple of the side to move
     let full = (ctx.cases % 8 == 1 && (ctx.config != "miri" || ctx.cases == 1)) || ctx.is_replay;
+    // at most 40,000 of these heavy sweeps per shard (they dominate the cost of the complete
+    // three-man enumeration in the thorough tier)
+    let full = full && ctx.features.get("full_tuple_sweeps").copied().unwrap_or(0) < 40_000;
     if full {
         let mut accepted: Vec<MMove> = Vec::new();
         let mut tuples = 0u64;
